@@ -234,7 +234,18 @@ Op(op, a) == [op |-> op, a |-> a]
 \*   err = "" (accepted) or the class of the refusal; det = the return value is determined;
 \*   ret = the return value; same = the data state must not change; post = the state afterwards
 Expect(err, det, ret, same, post) == [err |-> err, det |-> det, ret |-> ret, same |-> same, post |-> post]
-StepRec(o, e) == [op |-> o.op, a |-> o.a, e |-> e]
+\* only the arguments that matter for the operation are printed
+CArgs(o) == CASE o.op = "remove"  -> [fm |-> o.a.fm]
+              [] o.op = "add"     -> [fm |-> o.a.fm, name |-> o.a.name]
+              [] o.op = "scale"   -> [col |-> o.a.col, num |-> o.a.num, den |-> o.a.den]
+              [] o.op = "panel"   -> [col |-> o.a.col]
+              [] o.op = "split"   -> [k |-> o.a.k, g |-> o.a.g]
+              [] o.op \in {"sample", "sampleind"} -> [nn |-> o.a.nn]
+              [] o.op = "extract" -> [kind |-> o.a.kind, ps |-> o.a.ps]
+              [] o.op = "flatten" -> [kind |-> o.a.kind]
+              [] o.op = "count"   -> [col |-> o.a.col, v |-> o.a.v]
+              [] OTHER            -> [x |-> 0]
+StepRec(o, e) == [op |-> o.op, a |-> CArgs(o), e |-> e]
 
 -----------------------------------------------------------------------------
 (* Initial state *)
@@ -310,7 +321,8 @@ Book(o, x, e, stop) ==
     /\ n' = n + 1
     /\ seq' = IF Mode = "gen" THEN NextSeq(seq, x) ELSE seq
     /\ hist' = IF Mode = "gen"
-               THEN Append(hist, StepRec(o, e)) \o ObsBatch(table', cols', pcol', map', NextSeq(seq, x))
+               THEN Append(hist, StepRec(o, e))
+                    \o (IF stop THEN << >> ELSE ObsBatch(table', cols', pcol', map', NextSeq(seq, x)))
                ELSE << >>
     /\ done' = (stop \/ n + 1 >= MaxOps)
     /\ UNCHANGED tid
